@@ -63,11 +63,12 @@ Record mon := {
   m_sent : option N;               (* first data sent and nothing authenticated received since *)
   m_last : option N;               (* last authenticated packet in either direction *)
   m_est : N;                       (* when the session was established *)
-  m_owed : option N }.             (* an initiation is owed since then *)
+  m_owed : option N;               (* an initiation is owed since then *)
+  m_hs : N }.                      (* last handshake message sent (the code's 5 s rate limit on initiations) *)
 
 Definition mon0 : mon :=
   {| m_sess := 0; m_queue := []; m_expect := []; m_tun := []; m_optka := false;
-     m_init := None; m_recv := None; m_sent := None; m_last := None; m_est := 0; m_owed := None |}.
+     m_init := None; m_recv := None; m_sent := None; m_last := None; m_est := 0; m_owed := None; m_hs := 0 |}.
 
 Section Monitor.
   Variables pka lo hi : N.
@@ -86,7 +87,7 @@ Section Monitor.
         if (maxTransmissions <=? n) && negb no_giveup && (t' + p_rekey + jmax + hi <? t)
         then {| m_sess := m_sess m; m_queue := []; m_expect := m_expect m; m_tun := m_tun m;
                 m_optka := m_optka m; m_init := m_init m; m_recv := m_recv m; m_sent := m_sent m;
-                m_last := m_last m; m_est := m_est m; m_owed := m_owed m |}
+                m_last := m_last m; m_est := m_est m; m_owed := m_owed m; m_hs := m_hs m |}
         else m
     | None => m
     end.
@@ -99,23 +100,40 @@ Section Monitor.
        m_expect := m_expect m ++ map (fun id => (OData id, t)) (concat (m_queue m));
        m_tun := m_tun m;
        m_optka := true;
-       m_init := None; m_recv := m_recv m; m_sent := None; m_last := Some t; m_est := t; m_owed := None |}.
+       m_init := None; m_recv := m_recv m; m_sent := None; m_last := Some t; m_est := t; m_owed := None; m_hs := m_hs m |}.
 
   Definition on_input (t : N) (i : input) (m : mon) : mon :=
     match i with
     | IFire _ | IFail _ => m
+    | IShiftKeys d =>                (* harness hook: the session's key becomes d older *)
+        {| m_sess := m_sess m; m_queue := m_queue m; m_expect := m_expect m; m_tun := m_tun m;
+           m_optka := m_optka m; m_init := m_init m; m_recv := m_recv m; m_sent := m_sent m;
+           m_last := m_last m; m_est := m_est m - d; m_owed := m_owed m; m_hs := m_hs m |}
+    | ISetAttempts n =>              (* harness hook: n retries are counted as made *)
+        {| m_sess := m_sess m; m_queue := m_queue m; m_expect := m_expect m; m_tun := m_tun m;
+           m_optka := m_optka m;
+           m_init := match m_init m with Some (t', _) => Some (t', n + 1) | None => None end;
+           m_recv := m_recv m; m_sent := m_sent m; m_last := m_last m; m_est := m_est m;
+           m_owed := m_owed m; m_hs := m_hs m |}
     | IStop =>                       (* device down: everything is dropped, nothing is owed *)
         {| m_sess := 3; m_queue := []; m_expect := []; m_tun := []; m_optka := false;
-           m_init := None; m_recv := None; m_sent := None; m_last := None; m_est := 0; m_owed := None |}
+           m_init := None; m_recv := None; m_sent := None; m_last := None; m_est := 0; m_owed := None; m_hs := m_hs m |}
     | IStart =>                      (* device up: the interval of silence starts now *)
         {| m_sess := 0; m_queue := []; m_expect := []; m_tun := []; m_optka := false;
-           m_init := None; m_recv := None; m_sent := None; m_last := Some t; m_est := 0; m_owed := None |}
+           m_init := None; m_recv := None; m_sent := None; m_last := Some t; m_est := 0; m_owed := None;
+           m_hs := 0 (* Start back-dates lastSentHandshake *) |}
     | ITun ids =>
+        (* a session whose key is older than RejectAfterTime (180 s) is no session any more *)
+        let m := if (m_sess m =? 2) && (m_est m + RejectAfterTime <=? t)
+                 then {| m_sess := 0; m_queue := m_queue m; m_expect := m_expect m; m_tun := m_tun m;
+                         m_optka := m_optka m; m_init := m_init m; m_recv := m_recv m;
+                         m_sent := m_sent m; m_last := m_last m; m_est := m_est m; m_owed := m_owed m; m_hs := m_hs m |}
+                 else m in
         if m_sess m =? 2 then
           {| m_sess := 2; m_queue := m_queue m;
              m_expect := m_expect m ++ map (fun id => (OData id, t)) ids;
              m_tun := m_tun m; m_optka := m_optka m; m_init := m_init m; m_recv := m_recv m;
-             m_sent := m_sent m; m_last := m_last m; m_est := m_est m; m_owed := m_owed m |}
+             m_sent := m_sent m; m_last := m_last m; m_est := m_est m; m_owed := m_owed m; m_hs := m_hs m |}
         else if m_sess m =? 3 then m       (* the TUN reader drops packets for a stopped peer *)
         else
           let init' := match m_init m with
@@ -131,16 +149,16 @@ Section Monitor.
              m_recv := m_recv m; m_sent := m_sent m; m_last := m_last m; m_est := m_est m;
              (* no session and no attempt in progress: the queued packets need a handshake now *)
              m_owed := match m_owed m, init' with
-                       | None, None => if m_sess m =? 0 then Some t else None
+                       | None, None => if (m_sess m =? 0) && (m_hs m + p_rekey <=? t) then Some t else None
                        | o, _ => o
-                       end |}
+                       end; m_hs := m_hs m |}
     | IResp => complete t m
     | IInit =>
         {| m_sess := if m_sess m =? 2 then 2 else 1; m_queue := m_queue m;
            m_expect := m_expect m ++ [(OResp, t)]; m_tun := m_tun m; m_optka := m_optka m;
            (* the peer's handshake supersedes the device's pending attempt (its
               retransmission is rate-limited against the response just sent) *)
-           m_init := None; m_recv := m_recv m; m_sent := None; m_last := Some t; m_est := m_est m; m_owed := m_owed m |}
+           m_init := None; m_recv := m_recv m; m_sent := None; m_last := Some t; m_est := m_est m; m_owed := m_owed m; m_hs := m_hs m |}
     | IRecv d =>
         if m_sess m =? 0 then m else
         let m := if m_sess m =? 1 then complete t m else m in
@@ -148,7 +166,7 @@ Section Monitor.
            m_tun := m_tun m ++ match d with Some id => [(id, t)] | None => [] end;
            m_optka := m_optka m; m_init := m_init m;
            m_recv := match d, m_recv m with Some _, None => Some t | _, r => r end;
-           m_sent := None; m_last := Some t; m_est := m_est m; m_owed := m_owed m |}
+           m_sent := None; m_last := Some t; m_est := m_est m; m_owed := m_owed m; m_hs := m_hs m |}
     end.
 
   Definition opt_min (a b : option N) : option N :=
@@ -237,7 +255,8 @@ Section Monitor.
     ({| m_sess := m_sess m; m_queue := m_queue m; m_expect := expect'; m_tun := m_tun m;
         m_optka := if free_ka then false else m_optka m;
         m_init := init'; m_recv := None; m_sent := sent'; m_last := Some t; m_est := m_est m;
-        m_owed := if is_init then None else m_owed m |},
+        m_owed := if is_init then None else m_owed m;
+        m_hs := if is_init || output_eqb o OResp then t else m_hs m |},
      c_late_p ++ c_late_r ++ c_early ++ c_newhs ++ c_needless ++ c_owed ++ c_retx ++ c_exp).
 
   Definition on_tun (t id : N) (m : mon) : mon * list N :=
@@ -246,7 +265,7 @@ Section Monitor.
         if i =? id then
           ({| m_sess := m_sess m; m_queue := m_queue m; m_expect := m_expect m; m_tun := rest;
               m_optka := m_optka m; m_init := m_init m; m_recv := m_recv m; m_sent := m_sent m;
-              m_last := m_last m; m_est := m_est m; m_owed := m_owed m |}, if c + hi <? t then [13] else [])
+              m_last := m_last m; m_est := m_est m; m_owed := m_owed m; m_hs := m_hs m |}, if c + hi <? t then [13] else [])
         else (m, [12])
     | [] => (m, [12])
     end.
